@@ -258,7 +258,12 @@ func (so *sharedObjs) identity(k world.Key) age.Identity {
 	defer so.mu.Unlock()
 	id := fmt.Sprintf("%s/%d", k, k.WF)
 	if so.ids[id] == nil {
-		so.ids[id] = world.Identity(k)
+		if k.T == "r" {
+			// a private key given as plain numbers: nothing precomputed yet when the goroutines start
+			so.ids[id] = world.BareRSAIdentity(k.K)
+		} else {
+			so.ids[id] = world.Identity(k)
+		}
 	}
 	return so.ids[id]
 }
